@@ -133,3 +133,38 @@ func VerifC15_Corruption() {
 	vh.Assert(err != nil, "corrupted payload (burst <= 32 bits) is rejected")
 	vh.Reach("end")
 }
+
+// VerifC20_RLEParse: no byte string makes the sparse-volume parsers panic.  Params: input length, parser
+// (0 RLEs.UnmarshalBinary, 1 ReadRLEs, 2 IZYXSlice.UnmarshalBinary, 3 RLE.UnmarshalBinary).
+func VerifC20_RLEParse() {
+	n, which := vh.Param(0), vh.Param(1)
+	data := vh.Bytes("input", n)
+	switch which {
+	case 0:
+		var rles RLEs
+		if rles.UnmarshalBinary(data) == nil {
+			vh.Assert(len(rles)*16 == n, "one run per 16 bytes")
+			back, _ := rles.MarshalBinary()
+			vh.Assert(bytes.Equal(back, data), "accepted input re-serialises to itself")
+		}
+	case 1:
+		vh.MakeBound(4)
+		rles, err := ReadRLEs(bytes.NewBuffer(data))
+		if err == nil {
+			vh.Assert(len(rles)*16+12 <= n, "ReadRLEs returns no more runs than the input holds")
+		}
+	case 2:
+		var s IZYXSlice
+		if s.UnmarshalBinary(data) == nil {
+			vh.Assert(len(s)*12 == n, "one block coordinate per 12 bytes")
+			back, _ := s.MarshalBinary()
+			vh.Assert(bytes.Equal(back, data), "accepted input re-serialises to itself")
+		}
+	default:
+		var r RLE
+		if r.UnmarshalBinary(data) == nil {
+			vh.Assert(n == 16, "a run is 16 bytes")
+		}
+	}
+	vh.Reach("end")
+}
